@@ -709,30 +709,25 @@ func (self Node) Gets(keys []PathNode, opts *Options) error {
 	}
 
 	need := len(keys)
+	isStrKey := it.kt == proto.STRING
 	for count := 0; it.HasNext() && count < need; {
-		for j, id := range keys {
-			if id.Path.Type() == PathStrKey {
-				exp := id.Path.str()
-				_, key, s, e := it.NextStr(UseNativeSkipForGet)
-				if it.Err != nil {
-					return errNode(meta.ErrRead, "", it.Err)
-				}
-				if key == exp {
-					keys[j].Node = self.slice(s, e, et)
-					count += 1
-					break
-				}
-			} else if id.Path.Type() == PathIntKey {
-				exp := id.Path.int()
-				_, key, s, e := it.NextInt(UseNativeSkipForGet)
-				if it.Err != nil {
-					return errNode(meta.ErrRead, "", it.Err)
-				}
-				if key == exp {
-					keys[j].Node = self.slice(s, e, et)
-					count += 1
-					break
-				}
+		// read every pair once, then match it against all the wanted keys
+		var keyStr string
+		var keyInt, s, e int
+		if isStrKey {
+			_, keyStr, s, e = it.NextStr(UseNativeSkipForGet)
+		} else {
+			_, keyInt, s, e = it.NextInt(UseNativeSkipForGet)
+		}
+		if it.Err != nil {
+			return errNode(meta.ErrRead, "", it.Err)
+		}
+		for j := range keys {
+			id := &keys[j]
+			if (isStrKey && id.Path.Type() == PathStrKey && id.Path.str() == keyStr) || (!isStrKey && id.Path.Type() == PathIntKey && id.Path.int() == keyInt) {
+				id.Node = self.slice(s, e, et)
+				count += 1
+				break
 			}
 		}
 	}
